@@ -56,6 +56,29 @@ class Ctx:
             self._builds[key] = b
         return b
 
+    def build_multi(self, scs, san=True, tsan=False):
+        """several scanners (distinct names / prefixes) linked into one
+        simulator executable; returns ScannerBuild (stage 'link' on a clash)"""
+        key = hashlib.sha1(('\0'.join(sc.to_l() + ' '.join(sc.flex_args()) + str(sc.buf_size) for sc in scs) + str(san) + str(tsan)).encode()).hexdigest()[:16]
+        b = self._builds.get(key)
+        if b is not None:
+            return b
+        objs = []
+        first = None
+        for i, sc in enumerate(scs):
+            defines = ['YY_BUF_SIZE=%d' % sc.buf_size] if sc.buf_size else []
+            last = (i == len(scs) - 1)
+            r = common.build_scanner(self.flex, self.workdir, 'm%s_%d' % (key, i), sc.to_l(), sc.flex_args(), san=san, tsan=tsan,
+                                     defines=defines, extra_objs=objs if last else (), link=last)
+            if not r.ok:
+                self._builds[key] = r
+                return r
+            if not last:
+                objs.append(r.obj)
+            first = r
+        self._builds[key] = first
+        return first
+
     def drop_builds(self):
         import shutil
         for k, b in self._builds.items():
